@@ -52,6 +52,9 @@ pub fn run(ctx: &Ctx) -> bool {
 
 /// Replay one saved case, bypassing all generators. `kind` is the replay kind stored in the file.
 pub fn replay(prop: &str, _kind: &str, case: &J) -> Option<Verdict> {
+    if case.get("set_fuzz_bytes").is_some() {
+        return crate::fuzz::set_replay(prop, case);
+    }
     match prop {
         "C01" => c01::replay(case),
         "C02" => c02::replay(case),
